@@ -75,6 +75,8 @@ var wheres = []opt{
 	{"and", "v IS NOT NULL AND k <> 2"},
 	{"id_and", "{id} = {K1} AND k = 1"},
 	{"neg", "k = -1 OR d > 1.5"},
+	{"not_bare", "NOT k = 1"},
+	{"not_id", "NOT {id} = {K3}"},
 }
 
 var groups = []opt{
@@ -248,6 +250,95 @@ func features(q []int) map[string]string {
 		"from":     froms[q[dFrom]].name,
 		"union":    unions[q[dUnion]].name,
 	}
+}
+
+func oneOf(s string, set ...string) bool {
+	for _, x := range set {
+		if s == x {
+			return true
+		}
+	}
+	return false
+}
+
+// kinds derives the clause classes a signature speaks about from the chosen options.
+func kinds(q []int) map[string]string {
+	f := map[string]string{}
+	o := orders[q[dOrder]].name
+	switch {
+	case o == "none":
+		f["order_kind"] = "none"
+	case strings.HasPrefix(o, "pos"):
+		f["order_kind"] = "position"
+	case o == "count_desc_pos1":
+		f["order_kind"] = "aggregate_and_position"
+	case oneOf(o, "count", "sum_k_desc", "max_d", "min_v"):
+		f["order_kind"] = "aggregate"
+	case oneOf(o, "alias", "alias_c_desc"):
+		f["order_kind"] = "alias"
+	default:
+		f["order_kind"] = "column"
+	}
+	g := groups[q[dGroup]].name
+	switch g {
+	case "none":
+		f["group_kind"] = "none"
+	case "pos":
+		f["group_kind"] = "position"
+	case "alias":
+		f["group_kind"] = "alias"
+	default:
+		f["group_kind"] = "columns"
+	}
+	p := projs[q[dProj]].text
+	f["has_aggregate"] = "no"
+	if strings.Contains(p, "(") {
+		f["has_aggregate"] = "yes"
+	}
+	f["aggregate_distinct"] = "no"
+	if strings.Contains(p, "(DISTINCT") {
+		f["aggregate_distinct"] = "yes"
+	}
+	f["limit_kind"] = "none"
+	if l := limits[q[dLimit]].name; l != "none" {
+		f["limit_kind"] = "count"
+		if strings.ContainsAny(l, ",_") && !strings.HasPrefix(l, "0,") {
+			f["limit_kind"] = "offset"
+		}
+	}
+	f["dedup"] = "no" // does the merger have to remove duplicates / fold groups by a text key?
+	if q[dDistinct] == 1 || g != "none" || oneOf(unions[q[dUnion]].name, "distinct", "distinct_where", "three") {
+		f["dedup"] = "yes"
+	}
+	return f
+}
+
+// mechanism names the known defect mechanism a locally minimal witness belongs to, by the
+// clause the witness needs plus what the data must contain; "unclassified" otherwise. The
+// list of mechanisms that are accepted as known findings is data (findings.json).
+func mechanism(f map[string]string) string {
+	multi := f["tables_with_rows"] != "0" && f["tables_with_rows"] != "1"
+	switch {
+	case oneOf(f["where"], "not_bare", "not_id"):
+		return "not_without_parentheses"
+	case f["where"] == "id_lt" && strings.HasPrefix(f["layout_rule"], "date_"):
+		return "date_rule_less_than"
+	case f["group_kind"] == "position":
+		return "group_by_position"
+	case strings.HasSuffix(f["order_kind"], "position") && (multi || f["group_kind"] != "none"):
+		return "order_by_position"
+	case f["distinct"] == "yes" && f["has_aggregate"] == "yes" && multi:
+		return "select_distinct_with_aggregate"
+	case strings.HasPrefix(f["order_kind"], "aggregate") && f["group_kind"] != "none" && multi:
+		return "order_by_aggregate_with_group_by"
+	case f["group_kind"] != "none" && f["limit_kind"] != "none" && multi:
+		return "group_by_with_limit"
+	case f["aggregate_distinct"] == "yes" && (f["k_value_on_2_tables"] == "1" || f["v_value_on_2_tables"] == "1"):
+		return "aggregate_distinct"
+	case f["dedup"] == "yes" && (f["NULL_string_present"] == "1" || f["separator_collision"] == "1") && oneOf(f["mismatch"], "row_count", "rows"):
+		return "map_key_collision"
+	}
+	return "unclassified"
 }
 
 func deviations(q []int) int {
